@@ -730,6 +730,23 @@ func c01GenCase(t *rapid.T, mode string) *c01Case {
 	c.NUpdates = len(flat)
 
 	c.classifyTunnelCollision()
+	// "endpoint-profile-id-repeated": some valid version of a local endpoint that the history delivers
+	// names the same profile ID twice; "...-then-updated": that endpoint is delivered again afterwards.
+	for idx, u := range flat {
+		if u.Ver < 0 || !strings.Contains(c.U.Slots[u.Slot].Class, "-local") {
+			continue
+		}
+		v := c.Vers[u.Slot][u.Ver]
+		if v.Invalid || !c01HasRepeat(v.Profiles) {
+			continue
+		}
+		c.Classes["endpoint-profile-id-repeated"] = true
+		for _, later := range flat[idx+1:] {
+			if later.Slot == u.Slot && later.Ver >= 0 {
+				c.Classes["endpoint-profile-id-repeated-then-updated"] = true
+			}
+		}
+	}
 
 	// Batching, flush points, in-sync position.
 	flushMode := rapid.SampledFrom([]string{"every-update", "random", "random", "sparse", "end-only"}).Draw(t, "flushMode")
